@@ -244,10 +244,15 @@ def run(chk, replay=None):
                       {"broken": "theorem", "detail": chk.proof_failure}, False)
     chk.cov["evaluations"] = n_eval
     chk.cov["distinct_nontrivial"] = len(nontrivial)
-    chk.cov["rule"] = ("scenarios on the real binary: single-node ack with file-gated close-write; 3-node clusters with %d seeded "
-                       "writes/removes to arbitrary nodes and fault in %s on a follower; judged against the sequential spec of "
-                       "acknowledged writes. Non-trivial = distinct (scenario, fault, seed)." % (n_ops, sorted(set(str(f) for f in faults))))
+    chk.cov["rule"] = ("(i) `ackchain` suite: ConfigAsyncCmd / handle_route / ConfigRoute (set and del) on a real in-process node that "
+                       "leads and on one that does not (client_write answers ForwardToLeader); (ii) the real binary: single-node ack with "
+                       "file-gated close-write; 3-node clusters with %d seeded writes/removes to arbitrary nodes and fault in %s on a "
+                       "follower; no-majority scenario (both followers frozen, publish, kill -9 of the leader); leadership rotation, a "
+                       "write pending in the elected leader when it is deposed, and a burst of writes (one key each) to the deposed leader; "
+                       "all judged against the sequential spec of acknowledged writes. Non-trivial = distinct (scenario, fault/op, seed)."
+                       % (n_ops, sorted(set(str(f) for f in faults))))
     chk.cov["samples"] = samples
     chk.cov["traces_validated_against_impl"] = n_eval
-    chk.assumptions += ["async-raft-ext commits and replicates correctly (trusted)",
+    chk.assumptions += ["async-raft-ext commits and replicates correctly (trusted; the no-majority scenario shows where this premise fails "
+                        "on the real system: recorded finding ack-without-majority:first-leader)",
                         "w_raft_present: the ConfigActor's Weak<NacosRaft> upgrades (always injected by starter::config_factory)"]
